@@ -306,11 +306,14 @@ def run_layer_t(scratch, reprs=None, jobs=8, keep_dir=None, target=None, ptr_byt
     entries = overlay.parse()
     specs = corpus.t_cells(reprs)
     by_mod = {s.mod: s for s in specs}
-    exp_path, exp_dt = expand.expand(scratch, specs, name="corpus_t", target=target)
+    exp_path, live_specs, rejected = expand.expand_isolating(scratch, specs, name="corpus_t", target=target)
+    exp_dt = 0
     ov, chosen = build_overlay(entries, specs)
     ext = expand.vx_extract(exp_path, ov)
     mods = {m["mod"]: m for m in ext["mods"]}
-    out = {"modules": {}, "expand_s": exp_dt, "undecided": [], "files": {}}
+    out = {"modules": {}, "expand_s": exp_dt, "undecided": [], "files": {}, "rejected": rejected}
+    for k, v in rejected.items():
+        out["undecided"].append("layer-T cell %s is rejected by the macro / rustc (its bodies cannot be extracted): %s" % (k, v[:300]))
     vdir = keep_dir or os.path.join(scratch, "verus")
     os.makedirs(vdir, exist_ok=True)
     jobs_list = []
